@@ -156,3 +156,5 @@ impl core::ops::Deref for PathBuf {
     #[verifier::external_body]
     fn deref(&self) -> (r: &Path) ensures r@ == self@ { unimplemented!() }
 }
+/// no component of the path is ".."
+pub uninterp spec fn no_dotdot_component(p: Seq<u8>) -> bool;
